@@ -643,7 +643,7 @@ func (b *Builder) genMap(ctx pairCtx, src, dst *SDecl, name string) {
 	}
 	dst.Fields = append(dst.Fields, FDecl{Name: name, Type: t})
 	dpath := joinPath(ctx.dstPath, name)
-	variant := b.pick(map[string]int{"field": 4, "getter": 3, "nestedsrc": 2, "arg": 3, "argpath": 2, "unresolved": 1, "wrongcase": 1, "gettererr": 2, "typed": 2, "hiddenseg": 1, "arggettererr": 2})
+	variant := b.pick(map[string]int{"field": 4, "getter": 3, "nestedsrc": 2, "arg": 3, "argpath": 2, "unresolved": 1, "wrongcase": 1, "gettererr": 2, "typed": 2, "hiddenseg": 1, "arggettererr": 2, "gettererrtyped": 1})
 	if variant == "arggettererr" && isReverse(m) {
 		variant = "gettererr"
 	}
@@ -696,15 +696,21 @@ func (b *Builder) genMap(ctx pairCtx, src, dst *SDecl, name string) {
 		ptr := b.chance(0.3)
 		src.Methods = append(src.Methods, getterSrc(src.Pkg, src.Name, other, t, "r."+hidden, ptr))
 		m.Notations = append(m.Notations, Notation{Name: "map", Args: []string{sp(other + "()"), dpath}})
-	case "gettererr":
+	case "gettererr", "gettererrtyped":
 		hidden := "g" + other
-		src.Fields = append(src.Fields, FDecl{Name: hidden, Type: t})
+		gt := t
+		if variant == "gettererrtyped" {
+			// the (T, error) result fits only through the method's typecast/stringer opt-in: a value that comes
+			// with an error cannot be converted in place
+			gt = b.typeFor(src.Pkg).Expr
+		}
+		src.Fields = append(src.Fields, FDecl{Name: hidden, Type: gt})
 		site := src.Name + "." + other
 		if src.Pkg != "" {
 			site = src.Pkg + "." + site
 		}
 		src.Methods = append(src.Methods, fmt.Sprintf("func (r %s) %s() (%s, error) {\n\tvtr.Enter(%q)\n\tif vtr.Fail(%q) {\n\t\tvar z %s\n\t\treturn z, vtr.ErrOf(%q)\n\t}\n\treturn r.%s, nil\n}\n",
-			src.Name, other, t, site, site, t, site, hidden))
+			src.Name, other, gt, site, site, gt, site, hidden))
 		m.Notations = append(m.Notations, Notation{Name: "map", Args: []string{sp(other + "()"), dpath}})
 		m.ErrSites = append(m.ErrSites, site)
 		if !m.HasErr {
@@ -826,7 +832,7 @@ func (b *Builder) genConv(ctx pairCtx, src, dst *SDecl, name string) {
 		}
 		break
 	}
-	variant := b.pick(map[string]int{"plain": 5, "err": 4, "ptrarg": 2, "ext": 2, "generated": 0, "getter": 2, "dstdiff": 2, "srcvalptr": 1, "badshape": 0})
+	variant := b.pick(map[string]int{"plain": 5, "err": 4, "ptrarg": 2, "ext": 2, "generated": 0, "getter": 2, "dstdiff": 2, "srcvalptr": 1, "badshape": 0, "errdstdiff": 1, "gettererr": 1})
 	fname := fmt.Sprintf("cv%d", b.next())
 	srcField := name
 	dstField := name
@@ -847,8 +853,10 @@ func (b *Builder) genConv(ctx pairCtx, src, dst *SDecl, name string) {
 	case "srcvalptr":
 		// converter takes T, source field is *T
 		srcT = "*" + argT
-	case "dstdiff":
-		// converter result needs the opted-in typecast to fit
+	case "dstdiff", "errdstdiff":
+		// converter result needs the opted-in typecast to fit; "errdstdiff": and comes with an error, so it
+		// cannot be converted in place (a value returned together with an error is assigned as it is or not at all)
+		withErr = variant == "errdstdiff"
 		switch retT {
 		case "string":
 			dstT = "ext.MStr"
@@ -888,6 +896,17 @@ func (b *Builder) genConv(ctx pairCtx, src, dst *SDecl, name string) {
 		hidden := "g" + srcField
 		src.Fields = append(src.Fields, FDecl{Name: hidden, Type: srcT})
 		src.Methods = append(src.Methods, getterSrc(src.Pkg, src.Name, srcField, srcT, "r."+hidden, b.chance(0.3)))
+		srcExpr += "()"
+	} else if variant == "gettererr" {
+		// the source of the converter is a getter that returns (T, error): it cannot be an argument
+		hidden := "g" + srcField
+		src.Fields = append(src.Fields, FDecl{Name: hidden, Type: srcT})
+		gsite := src.Name + "." + srcField
+		if src.Pkg != "" {
+			gsite = src.Pkg + "." + gsite
+		}
+		src.Methods = append(src.Methods, fmt.Sprintf("func (r %s) %s() (%s, error) {\n\tvtr.Enter(%q)\n\tif vtr.Fail(%q) {\n\t\tvar z %s\n\t\treturn z, vtr.ErrOf(%q)\n\t}\n\treturn r.%s, nil\n}\n",
+			src.Name, srcField, srcT, gsite, gsite, srcT, gsite, hidden))
 		srcExpr += "()"
 	} else {
 		src.Fields = append(src.Fields, FDecl{Name: srcField, Type: srcT})
